@@ -84,7 +84,7 @@ impl Check for C18 {
         let free = rng.chance(0.5);
         let o = GenOpts {
             planner: Some(PlannerKind::PRM),
-            families: if free { vec!["open"] } else { vec!["balls", "balls", "shell_door", "thin_wall", "goal_overlap"] },
+            families: if free { vec!["open"] } else { vec!["balls", "balls", "shell_door", "thin_wall", "goal_overlap", "zero_weight"] },
             max_iters: if tier == Tier::Thorough { 200 } else { 60 },
             min_frac: 0.01,
             query_budget: 3e4,
@@ -117,7 +117,7 @@ impl Check for C18 {
         };
         let (s2, t2) = (pick(&mut rng), pick(&mut rng));
         let g = scn.problems[0].goal.clone();
-        scn.problems.push(ProblemSpec { starts: vec![s2], goal: GoalSpec { target: t2, radius: g.radius, sampler: GoalSampler::Fixed, sampler_seed: 0 }, world: 0 });
+        scn.problems.push(ProblemSpec { starts: vec![s2], goal: GoalSpec { target: t2, radius: g.radius, sampler: GoalSampler::Fixed, sampler_seed: 0, comp: None }, world: 0 });
         let big = || CallSpec::Solve { timeout_ns: 1_000_000_000_000, stalls: vec![] };
         scn.calls = match rng.below(5) {
             0 => vec![CallSpec::Setup { problem: 0 }, gen::construct_call(n), big()],
@@ -340,7 +340,7 @@ impl Check for C18 {
                     }
                     let n = rm.len();
                     let adj: Vec<Vec<usize>> = rm.iter().map(|x| x.1.clone()).collect();
-                    let goals: Vec<bool> = rm.iter().map(|x| g.d(&prob.goal.target, &x.0) <= prob.goal.radius).collect();
+                    let goals: Vec<bool> = rm.iter().map(|x| crate::oracle::goal_sat(&**g, &prob.goal, &x.0)).collect();
                     let rejected: Vec<&St> = evs.iter().filter_map(|e| match e { Ev::Valid(s, false) | Ev::OutOfBounds(s) => Some(s), _ => None }).collect();
                     let acc: Vec<&St> = evs.iter().filter_map(|e| if let Ev::Valid(s, true) = e { Some(s) } else { None }).collect();
                     let l = g.lvs();
